@@ -2548,3 +2548,132 @@ mutant('C04-parents-in-key-order', 'C04',
          "            k_list = list(previously_assigned[parent_level]."
          "keys())\n")],
        'R-TAINT/order-to-sink', '')
+
+
+# ----------------------------------------------------------------------
+# rules of round 4
+# ----------------------------------------------------------------------
+mutant('C08-flatten-union-skips-trivial', 'C08',
+       'flat marker set leaves out the lists of single-child parents',
+       [(P+'cli/from_specified_markers.py',
+         "            if k not in ('log', 'metadata'):\n"
+         "                all_markers = all_markers.union("
+         "set(marker_lookup[k]))\n",
+         "            if k not in ('log', 'metadata') and len("
+         "marker_lookup[k]) > 2:\n"
+         "                all_markers = all_markers.union("
+         "set(marker_lookup[k]))\n")],
+       'R-COVER/flatten-union', '')
+twin('C08-twin-flatten-union-eq-tests', 'C08',
+     'flat marker set skips the bookkeeping keys by equality tests',
+     [(P+'cli/from_specified_markers.py',
+       "            if k not in ('log', 'metadata'):\n"
+       "                all_markers = all_markers.union("
+       "set(marker_lookup[k]))\n",
+       "            if k == 'log':\n"
+       "                continue\n"
+       "            if k == 'metadata':\n"
+       "                continue\n"
+       "            all_markers = all_markers.union("
+       "set(marker_lookup[k]))\n")])
+mutant('C09-merge-compares-cluster-names-only', 'C09',
+       'statistics files merged after comparing cluster names only',
+       [(P+'diff_exp/precompute_utils.py',
+         "                if src['cluster_to_row'][()] != "
+         "dst_cluster_lookup:\n",
+         "                if set(json.loads(src['cluster_to_row'][()])) != "
+         "set(json.loads(dst_cluster_lookup)):\n")],
+       'R-GUARD/merge-tables-agree', 'cluster_to_row')
+twin('C09-twin-merge-compares-decoded-tables', 'C09',
+     'statistics files merged after comparing the decoded tables',
+     [(P+'diff_exp/precompute_utils.py',
+       "                if src['cluster_to_row'][()] != "
+       "dst_cluster_lookup:\n",
+       "                if json.loads(src['cluster_to_row'][()]) != "
+       "json.loads(dst_cluster_lookup):\n")])
+mutant('C02-zero-norm-mask-from-data', 'C02',
+       'rows whose norm is replaced are chosen by an all-zero test of the '
+       'data',
+       [(P+'utils/distance_utils.py',
+         "    mu = np.mean(data, axis=1)\n"
+         "    data = (data.transpose()-mu)\n",
+         "    invalid = np.logical_not(np.any(data, axis=1))\n"
+         "    mu = np.mean(data, axis=1)\n"
+         "    data = (data.transpose()-mu)\n"),
+        (P+'utils/distance_utils.py',
+         "    invalid = (norm == 0.0)\n    norm[invalid] = 1.0\n",
+         "    norm[invalid] = 1.0\n")],
+       'R-GUARD/zero-norm', '')
+twin('C02-twin-zero-norm-where', 'C02',
+     'zero norms replaced through np.where on the norm',
+     [(P+'utils/distance_utils.py',
+       "    invalid = (norm == 0.0)\n    norm[invalid] = 1.0\n",
+       "    norm = np.where(norm == 0.0, 1.0, norm)\n")])
+mutant('C10-release-reader-seen-set', 'C10',
+       'term table reader skips terms it has seen under any parent',
+       [(P+'taxonomy/data_release_utils.py',
+         "            if parent_level not in result:\n"
+         "                result[parent_level] = dict()\n",
+         "            if (level, label) in seen_terms:\n"
+         "                continue\n"
+         "            seen_terms.add((level, label))\n"
+         "            if parent_level not in result:\n"
+         "                result[parent_level] = dict()\n"),
+        (P+'taxonomy/data_release_utils.py',
+         "    result = dict()\n    with open(csv_path, 'r') as src:\n"
+         "        src.readline()\n        for line in src:\n"
+         "            params = line.strip().split(',')\n"
+         "            label = params[label_idx]\n",
+         "    result = dict()\n    seen_terms = set()\n"
+         "    with open(csv_path, 'r') as src:\n"
+         "        src.readline()\n        for line in src:\n"
+         "            params = line.strip().split(',')\n"
+         "            label = params[label_idx]\n", 2)],
+       'R-COVER/release-reader-records-every-link', '')
+mutant('C15-csv-with-reduced-tree', 'C15',
+       'CSV written with the tree as reduced for the run',
+       [(P+'cli/from_specified_markers.py',
+         '    csv_result["taxonomy_tree"] = tree_for_metadata\n',
+         '    csv_result["taxonomy_tree"] = taxonomy_tree\n')],
+       'R-PROV/csv-tree-version', '')
+mutant('C16-round-skips-integer-chunks', 'C16',
+       'rounding skips chunks that are already integer-valued',
+       [(P+'validation/utils.py',
+         "            for i0 in range(0, data.shape[0], chunk_size[0]):\n"
+         "                i1 = min(data.shape[0], i0+chunk_size[0])\n"
+         "                chunk = data[i0:i1]\n",
+         "            for i0 in range(0, data.shape[0], chunk_size[0]):\n"
+         "                i1 = min(data.shape[0], i0+chunk_size[0])\n"
+         "                chunk = data[i0:i1]\n"
+         "                if np.all(chunk == np.round(chunk)):\n"
+         "                    continue\n")],
+       'R-TILE/every-window-written', '')
+mutant('C13-copy-whole-chunks-only', 'C13',
+       'sparse layer copied one whole HDF5 chunk at a time',
+       [(P+'utils/anndata_utils.py',
+         "                    for i0 in range(0, src_dataset.shape[0], "
+         "chunks[0]):\n"
+         "                        i1 = min(src_dataset.shape[0], "
+         "i0+chunks[0])\n",
+         "                    for i_chunk in range(src_dataset.shape[0]//"
+         "chunks[0]):\n"
+         "                        i0 = i_chunk*chunks[0]\n"
+         "                        i1 = i0+chunks[0]\n")],
+       'R-TILE/whole-axis', '')
+mutant('C17-root-topped-up-from-table', 'C17',
+       'root markers topped up from every group of the table',
+       [(P+'type_assignment/marker_cache_v2.py',
+         "                if len(patched_with) > 0:\n",
+         "                for other_str in marker_lookup:\n"
+         "                    new_markers = new_markers.union(\n"
+         "                        set(marker_lookup[other_str]))\n"
+         "                if len(patched_with) > 0:\n")],
+       'R-PROV/lists-consulted-follow-tree', '')
+mutant('C04-census-in-set-order', 'C04',
+       'leaf census visits the statistics files in set order',
+       [(P+'diff_exp/precompute_utils.py',
+         "    for pth in precompute_path_list:\n"
+         "        this_tree = TaxonomyTree.from_precomputed_stats(\n",
+         "    for pth in set(precompute_path_list):\n"
+         "        this_tree = TaxonomyTree.from_precomputed_stats(\n")],
+       'R-TAINT/order-to-sink', '')
